@@ -269,10 +269,26 @@ func (g *c02DeclGen) customFunc(depth int) map[string]interface{} {
 	g.n++
 	d := map[string]interface{}{}
 	strArg := func() interface{} {
-		// string-valued argument (never typed to a non-string)
+		// string-valued argument; rarely a numeric const cast to int: a string parameter rejects it at run time
+		// (argument check fails, the record fails, or the call yields nothing under ignore_error)
+		if rapid.IntRange(0, 14).Draw(g.t, g.label("typedArg")) == 0 {
+			return map[string]interface{}{"const": "12", "type": "int"}
+		}
 		a := g.leaf()
 		delete(a, "type")
 		return a
+	}
+	// an argument of a multi-argument function: mostly a leaf, sometimes another custom function (evaluated while the
+	// outer call's argument list is being built)
+	anyArg := func() interface{} {
+		if depth < 3 && rapid.IntRange(0, 3).Draw(g.t, g.label("nestedArg")) == 0 {
+			inner := g.customFunc(depth + 1)
+			if inner["custom_func"].(map[string]interface{})["name"] != "copy" {
+				delete(inner, "type")
+				return inner
+			}
+		}
+		return strArg()
 	}
 	var cf map[string]interface{}
 	switch rapid.IntRange(0, 8).Draw(g.t, g.label("cfk")) {
@@ -280,12 +296,12 @@ func (g *c02DeclGen) customFunc(depth int) map[string]interface{} {
 		n := rapid.IntRange(0, 3).Draw(g.t, g.label("nargs"))
 		args := []interface{}{}
 		for i := 0; i < n; i++ {
-			args = append(args, strArg())
+			args = append(args, anyArg())
 		}
 		cf = map[string]interface{}{"name": rapid.SampledFrom([]string{"concat", "coalesce"}).Draw(g.t, g.label("fn")), "args": args}
 	case 2, 3:
 		var arg interface{} = strArg()
-		if depth < 4 && rapid.IntRange(0, 3).Draw(g.t, g.label("nestcf")) == 0 {
+		if depth < 4 && rapid.IntRange(0, 2).Draw(g.t, g.label("nestcf")) == 0 {
 			inner := g.customFunc(depth + 1)
 			delete(inner, "type")
 			if fn := inner["custom_func"].(map[string]interface{})["name"]; fn == "copy" {
@@ -304,7 +320,7 @@ func (g *c02DeclGen) customFunc(depth int) map[string]interface{} {
 	default:
 		script := rapid.SampledFrom([]string{"a + '|' + b", "a.length + b.length", "a == b", "parseInt(a)", "a.trim()", "[a, b]", "({x: a, n: b.length})", "null", "a.nosuch.deeper"}).Draw(g.t, g.label("js"))
 		cf = map[string]interface{}{"name": "javascript", "args": []interface{}{map[string]interface{}{"const": script},
-			map[string]interface{}{"const": "a"}, strArg(), map[string]interface{}{"const": "b"}, strArg()}}
+			map[string]interface{}{"const": "a"}, anyArg(), map[string]interface{}{"const": "b"}, anyArg()}}
 	}
 	if rapid.IntRange(0, 3).Draw(g.t, g.label("ignerr")) == 0 {
 		cf["ignore_error"] = true
